@@ -415,6 +415,98 @@ func runC09(c *Ctx) {
 		}
 	}
 
+	// ---- O7: a queue whose remaining request does not exceed its share of the round is satisfied — it receives the
+	// request and leaves the remainder table; only a queue whose request strictly exceeds the share is rounded
+	// down and may keep a remainder entry
+	if gr := c.Anchor("O7", pkgResDiv, "", "getResourceToGiveInCurrentRound"); gr != nil {
+		strictlyMore := func(fs FactSet) bool {
+			_, ok := fs.find(func(f Fact) bool {
+				if f.T.Op != "bin" || len(f.T.Args) != 2 {
+					return false
+				}
+				a, b := f.T.Args[0], f.T.Args[1]
+				req, share := a.paramIndex() == 1 && b.paramIndex() == 0, a.paramIndex() == 0 && b.paramIndex() == 1
+				switch {
+				case req && f.T.Name == "<=" && !f.Pol, req && f.T.Name == ">" && f.Pol:
+					return true // ¬(requested ≤ share), requested > share
+				case share && f.T.Name == "<" && f.Pol, share && f.T.Name == ">=" && !f.Pol:
+					return true // share < requested, ¬(share ≥ requested)
+				}
+				return false
+			})
+			return ok
+		}
+		n := 0
+		for _, in := range instrsIn(gr, func(in ssa.Instruction) bool {
+			if mu, ok := in.(*ssa.MapUpdate); ok {
+				return termOf(mu.Map).paramIndex() == 3
+			}
+			cc, ok := in.(ssa.CallInstruction)
+			return ok && calleeOf(cc) != nil && funcPkgPath(calleeOf(cc)) == "math" && calleeOf(cc).Name() == "Floor"
+		}) {
+			n++
+			c.Check(strictlyMore(fx.FactsAt(in)), "O7", "DOM", funcKey(gr)+": rounding down / keeping a remainder only when the request strictly exceeds the share", instrPos(in), "requested > fairShare",
+				"a queue whose remaining request equals its share of the round is treated as unsatisfied: it receives everything it asked for but is not taken out of the remainder table, so the remainder pass gives it a further whole unit — above its request (and possibly its limit), taken from an unsatisfied sibling")
+		}
+		c.Floor("O7", "DOM round-down sites", n, 2)
+		for _, in := range instrsIn(gr, func(in ssa.Instruction) bool {
+			cc, ok := in.(*ssa.Call)
+			if !ok {
+				return false
+			}
+			b, isB := cc.Common().Value.(*ssa.Builtin)
+			return isB && b.Name() == "delete"
+		}) {
+			_, sat := hasFact(fx.FactsAt(in), func(f Fact) bool {
+				if f.T.Op != "bin" || len(f.T.Args) != 2 {
+					return false
+				}
+				a, b := f.T.Args[0], f.T.Args[1]
+				return a.paramIndex() == 1 && b.paramIndex() == 0 && f.T.Name == "<=" && f.Pol || a.paramIndex() == 0 && b.paramIndex() == 1 && f.T.Name == ">=" && f.Pol
+			})
+			c.Check(sat, "O7", "DOM", funcKey(gr)+": a queue leaves the remainder table exactly when requested ≤ share", instrPos(in), "delete behind requested <= fairShare", "the satisfied branch is not guarded by requested ≤ fairShare (equality included)")
+		}
+	}
+	// ---- O8: the remainder pass visits every priority tier; it stops early only when nothing is left
+	if dq := c.Anchor("O8", pkgResDiv, "", "divideOverQuotaResource"); dq != nil {
+		rem := p.Func(pkgResDiv, "", "divideRemainingResource")
+		n := 0
+		for _, in := range instrsIn(dq, isCallToFn(rem)) {
+			n++
+			h := loopHeaderOf(in.Block())
+			if h == nil {
+				c.Undec("O8", "MPT", funcKey(dq)+": remainder pass", instrPos(in), "divideRemainingResource is not called in a loop over the priorities")
+				continue
+			}
+			loop := naturalLoop(h)
+			ok := true
+			for b := range loop {
+				if b == h {
+					continue
+				}
+				for _, sc := range b.Succs {
+					if loop[sc] {
+						continue
+					}
+					// an exit from inside the body: must establish "nothing left"
+					if !fx.edgeEstablishes(b, sc, func(f Fact) bool {
+						if f.T.Op != "bin" || len(f.T.Args) != 2 || f.T.Args[1].String() != "const:0" {
+							return false
+						}
+						if f.T.Args[0].contains(func(x *Term) bool { return x.Op == "call" }) {
+							return false // a length or a lookup result, not the running amount
+						}
+						return (f.T.Name == "<=" && f.Pol) || (f.T.Name == ">" && !f.Pol) || (f.T.Name == "==" && f.Pol)
+					}) {
+						ok = false
+					}
+				}
+			}
+			c.Check(ok, "O8", "MPT", funcKey(dq)+": the remainder pass leaves its loop early only when nothing is left", instrPos(in), "break behind remainingAmount <= 0", "the pass that hands out rounding remainders can stop at a priority tier for another reason (e.g. a tier without remainders): lower tiers never receive theirs and surplus stays undistributed while weighted queues are unsatisfied")
+		}
+		c.Floor("O8", "MPT remainder passes", n, 1)
+	}
+
 	// ---- O5: the total over-quota weight counts exactly the unsatisfied queues
 	if tw := c.Anchor("O5", pkgResDiv, "", "getTotalWeightsForUnsatisfied"); tw != nil {
 		n := 0
